@@ -708,6 +708,33 @@ pub fn run_c13(tier: Tier, seed: u64, index: u64, scratch: &Scratch, rec: &mut R
                 t.root.files.push(nf);
                 t.labels.push("STRAY-LINK".into());
             }
+            // one world in four (own stream): one of the step's links exists a second time under a file name that
+            // re-spells its key-id prefix in upper-case hex, validly signed by the same key, recording another
+            // product — whether such a file counts is left open, which of the two is used must not depend on the
+            // order in which the directory enumerates them
+            {
+                let mut cr = Rng::stream(seed, "c13-case-variant");
+                if cr.chance(1, 4) {
+                    let own: Vec<usize> = t.root.files.iter().enumerate().filter(|(_, f)| f.name.starts_with(&format!("{}.", sname)) && f.name.ends_with(".link") && matches!(f.body, crate::world::Body::Link(_))).map(|(i, _)| i).collect();
+                    if !own.is_empty() {
+                        let src = t.root.files[*cr.pick(&own)].clone();
+                        let stem = &src.name[..src.name.len() - ".link".len()];
+                        if let Some(dot) = stem.rfind('.') {
+                            let (head, prefix) = stem.split_at(dot + 1);
+                            let up = prefix.to_ascii_uppercase();
+                            if up != prefix {
+                                let mut nf = src.clone();
+                                nf.name = format!("{head}{up}.link");
+                                if let crate::world::Body::Link(l) = &mut nf.body {
+                                    l.products.insert("variant-case".into(), gen::digest_of(5_000_700, false));
+                                }
+                                t.root.files.push(nf);
+                                t.labels.push("CASE-VARIANT-FILENAME".into());
+                            }
+                        }
+                    }
+                }
+            }
         } else if shape == 3 {
             t.labels.push("PLAIN".into());
         } else if shape == 4 {
